@@ -10,7 +10,7 @@ Open Scope Z_scope.
 Theorem block_handed_over_only_with_M_commits cfg st ev sc st' tr s h e :
   Reach cfg st -> step cfg st ev sc = Ok (st', tr) -> In (s, CProcessBlock h e) tr ->
   hasAllTransactions s = true /\ Mq s <= count_view (ViewNumber s) (CommitPayloads s).
-Proof. exact (processblock_gate cfg st ev sc st' tr s h e). Qed.
+Proof. exact (fun HR Hs Hin => proj1 (processblock_gate cfg st ev sc st' tr s h e HR Hs Hin)). Qed.
 Print Assumptions block_handed_over_only_with_M_commits.
 
 Theorem preblock_handed_over_only_with_M_precommits cfg st ev sc st' tr s h e :
